@@ -274,10 +274,10 @@ pub fn spans_record(text: &str, ext_bits: u32, conv: &Converter, extra: &Value) 
 }
 
 pub fn input_text(r: &Value) -> String {
-    if let Some(t) = r.get("text").and_then(|t| t.as_str()) {
-        t.to_string()
-    } else {
-        json_chunks_to_string(&r["input"])
+    match r.get("text") {
+        Some(Value::String(t)) => t.clone(),
+        Some(t @ Value::Array(_)) => json_chunks_to_string(t),
+        _ => json_chunks_to_string(&r["input"]),
     }
 }
 
